@@ -51,7 +51,8 @@ BUDGET = {'quick': 1200, 'thorough': 25000}
 TIME = {'quick': 75, 'thorough': 800}
 RULE = ('snapshot: 1-7 generated locals (ints incl. > 64 bit, floats incl. nan/inf, bools, None, str incl. non-BMP and '
         'longer than the string limit, bytes, nested list/tuple/set/dict, objects with public/_protected/__private '
-        'attributes, exceptions, shared and self-referential values, a `self`), 1-2 real frames of generated code, '
+        'attributes, exceptions, shared and self-referential values, a `self`, an object whose mangled private `_Ab` and public `b` '
+        'hold the same object - two child references equal in id / name / modifiers and different in original_name), 1-2 real frames of generated code, '
         'tracepoint kind line / METHOD (1 in 6) / capture stage, configured through convert_response, frame_type single/all/none, 0-3 watches (valid, failing, large), optional log message with fields, 0-4 '
         'decorator attributes and 0-3 resource attributes (str/bool/int/float/bytes/list/tuple values); value: '
         'values through BoundedAttributes + convert_value; auth: provider {none, "", basic, custom} x credentials '
@@ -332,6 +333,17 @@ class Pt:
     pass
 
 
+class A:
+    """an object whose name-mangled private attribute `_Ab` is shown as `b` (correct_names strips `_A`) next to a public
+    `b`: two child references that agree on id, name and modifiers and differ ONLY in original_name"""
+
+    def __init__(self, v):
+        self.__dict__['_Ab'] = v
+        self.__dict__['b'] = v
+        self.__dict__['_Ac'] = [v]
+        self.__dict__['c'] = 3
+
+
 class Slotted:
     __slots__ = ('a', 'b')
 
@@ -400,6 +412,8 @@ def mat(spec, top):
         return o
     if k == 'slotted':
         return Slotted()
+    if k == 'collide':
+        return A(mat(spec['v'], top))
     if k == 'exc':
         return ValueError(spec['msg'])
     if k == 'ref':
@@ -1175,6 +1189,11 @@ def scale_snapshot(case):
     lookup = {}
     for i in range(1, n + 1):
         kids = [VariableId(str(i + 1), 'c%d' % i)] if i < n and i % 3 == 0 else []
+        if kids and i % 2 == 0:
+            # the same reference again under its mangled private name: equal id / name / modifiers, other original_name
+            kids.append(VariableId(str(i + 1), 'c%d' % i, [], '_Ac%d' % i))
+        elif kids and i % 9 == 3:
+            kids.insert(0, VariableId(str(i + 1), 'c%d' % i, [], '_Bc%d' % i))
         lookup[str(i)] = Variable('str', ('%d:' % i + pad)[:max(ln, len(str(i)) + 1)], str(i * 7919), kids, i % 2 == 0)
     top = [VariableId(str(i), 'v%d' % i) for i in range(1, n + 1) if (i - 1) % 3 != 0 or i == 1][:max(1, n)]
     frames = [StackFrame('/app/big.py', 'big.py', 'fn', nums['line'], top, 'Cls', app_frame=True,
@@ -1780,7 +1799,7 @@ def gen_val(rng, depth=0):
         names = rng.sample(['x', 'y', '_prot', '_Pt__priv', 'é', 'name'], rng.randint(0, 4))
         return {'k': 'obj', 'cls': 'Pt', 'attrs': [[n, gen_val(rng, depth + 1)] for n in names]}
     return rng.choice([{'k': 'exc', 'msg': gen_str(rng)[:30]}, {'k': 'ref', 'i': rng.randint(0, 5)}, {'k': 'cycle'},
-                       {'k': 'slotted'}])
+                       {'k': 'slotted'}, {'k': 'collide', 'v': {'k': 'list', 'v': [{'k': 'int', 'v': 1}, {'k': 'str', 'v': 'x'}]}}])
 
 
 def gen_attr(rng, i):
@@ -1812,6 +1831,11 @@ def gen_snapshot(rng, stream='main'):
     locs = []
     for nm in names:
         locs.append({'k': 'obj', 'cls': 'Pt', 'attrs': [['x', gen_val(rng, 2)]]} if nm == 'self' else gen_val(rng))
+    if rng.random() < 0.15:
+        # a mangled private name that collides with a public one holding the SAME object
+        locs[rng.randrange(len(locs))] = {'k': 'collide', 'v': rng.choice([
+            {'k': 'list', 'v': [{'k': 'int', 'v': 1}]}, {'k': 'dict', 'v': []}, {'k': 'str', 'v': 'shared ' + gen_str(rng)[:10]},
+            {'k': 'obj', 'cls': 'Pt', 'attrs': [['x', {'k': 'int', 'v': 2}]]}])}
     args = {}
     if rng.random() < 0.6:
         args['frame_type'] = rng.choice(['single_frame', 'all_frame', 'no_frame'])
@@ -2092,6 +2116,8 @@ def corpus():
         base,
         two,                                                                    # two uploads converting at once
         dict(base, capture=True, nested=False),
+        dict(base, names=['v0', 'obj'], nested=False, watches=['obj'], args={},                 # `_Ab` and `b`: same object
+             locals=[{'k': 'int', 'v': 1}, {'k': 'collide', 'v': {'k': 'list', 'v': [{'k': 'int', 'v': 1}]}}]),
         dict(base, method=True, watches=['len(__v)', 'nope']),                   # method tracepoint: location line -1
         dict(base, method=True, nested=False, args={}, watches=[]),
         {'kind': 'tpline', 'stream': 'main', 'how': 'method', 'line': 0},
